@@ -27,7 +27,7 @@ static int parse_ints(char const *s, long *o, int max)
     }
     return n;
 }
-#define HS (1 << 18)
+#define HS (1 << 22)
 static uint64_t seen[HS];
 static int is_dup(char const *line)
 {
